@@ -1,6 +1,9 @@
 package props
 
 import (
+	"time"
+	"io"
+	"context"
 	"errors"
 	"bytes"
 	"fmt"
@@ -548,6 +551,76 @@ func TestC01(t *testing.T) {
 			r.Sample(map[string]any{"target": tg.Name, "edits": names, "hrr": j.hrr, "hellos": len(hellos), "ok": h.OK()})
 		}
 	})
+	// several goroutines start the handshake of one connection at once (Handshake, Read and
+	// Write all do): whoever ends up waiting must not rebuild the hello once it is over -
+	// afterwards Hello.Raw is still the ClientHello that was sent
+	concurrent := 0
+	for i := 0; i < mon.Pick(80, 2000); i++ {
+		rg := Sub("C01concurrent", i)
+		tg := targets[rg.Intn(len(targets))]
+		scfg := peer.ServerConfig()
+		if i%2 == 1 {
+			scfg.MaxVersion = tls.VersionTLS12
+		}
+		c, s, tap := peer.Pipe()
+		dl := time.Now().Add(peer.IODeadline)
+		c.SetDeadline(dl)
+		s.SetDeadline(dl)
+		srv := tls.Server(s, scfg)
+		go func() {
+			if srv.Handshake() == nil {
+				io.Copy(io.Discard, srv)
+			}
+		}()
+		ccfg := peer.ClientConfig("example.test")
+		ccfg.OmitEmptyPsk = true
+		u := tls.UClient(c, ccfg, tg.ClientID())
+		if err := tg.Prepare()(u); err != nil {
+			c.Close()
+			s.Close()
+			continue
+		}
+		// widen the window between the fast path and the handshake mutex (hook H10)
+		tls.VerifAttach(u.Conn, &tls.VerifPlan{Yield: func(point string) { time.Sleep(time.Duration(rg.Intn(300)) * time.Microsecond) }})
+		var wg sync.WaitGroup
+		errs := make([]error, 3+rg.Intn(3))
+		for k := range errs {
+			wg.Add(1)
+			go func(k int) {
+				defer wg.Done()
+				switch k % 3 {
+				case 0:
+					errs[k] = u.Handshake()
+				case 1:
+					_, errs[k] = u.Write([]byte("x"))
+				default:
+					errs[k] = u.HandshakeContext(context.Background())
+				}
+			}(k)
+		}
+		wg.Wait()
+		ok := true
+		for _, e := range errs {
+			if e != nil {
+				ok = false
+			}
+		}
+		c2s, _ := tap.Snapshot()
+		hellos := wire.ClientHellos(c2s)
+		if ok && len(hellos) > 0 {
+			concurrent++
+			if raw := u.HandshakeState.Hello.Raw; !bytes.Equal(raw, hellos[len(hellos)-1]) {
+				r.Violation(map[string]string{"kind": "raw_after_handshake_differs", "target": family(tg.Name), "mode": "concurrent-callers"},
+					fmt.Sprintf("%s: %d goroutines started the handshake together; afterwards Hello.Raw (%d bytes) is not the ClientHello that was sent (%d bytes)", tg.Name, len(errs), len(raw), len(hellos[len(hellos)-1])), map[string]any{"case": i, "target": tg.Name})
+			}
+		}
+		u.Close()
+		c.Close()
+		s.Close()
+		r.Case(fmt.Sprintf("concurrent|%s|%v", family(tg.Name), ok), true)
+	}
+	r.Count("concurrent_caller_handshakes", int64(concurrent))
+	r.Floor("concurrent_caller_handshakes", int64(mon.Pick(40, 1000)))
 	for k, v := range editSeen {
 		r.Count("edit_"+strings.ReplaceAll(k, " ", "_"), int64(v))
 		if v < 1 {
